@@ -41,8 +41,11 @@ TRUSTED_BASE = [
     "axioms allowed in property theorems: propext, Classical.choice, Quot.sound (audited with #print axioms); "
     "no native_decide, no bv_decide, no axiom declarations, no sorry",
     "Mathlib v4.33.0 single modules imported by CBV/Lemmas and CBV/Props only",
-    "cbv/gen_tables.py (prints Python values of /repo's tables as Lean literals)",
-    "the Python harness cbv/ (case generators, canonicalisers, float->rational conversion) and Driver.lean's request parser",
+    "the translator cbv/gen_tables.py + cbv/tables/*.py (prints Python values of /repo's tables and, read with ast/inspect "
+    "from the current source text, expressions, guards, index tables and statement outlines as Lean literals: its parsers "
+    "and token encodings are trusted, what the tie theorems prove is about its output)",
+    "the Python harness cbv/ (case generators, canonicalisers, float->rational conversion) and the request parser of the "
+    "generated line-protocol driver (core.write_driver)",
     "correspondence is differential testing: Python/numpy/scipy semantics of the modelled methods are validated on the "
     "generated inputs only, not verified",
 ]
